@@ -27,11 +27,18 @@ const CRASH: i32 = 9;
 
 /// what the restarted server shows: observation + consistency + next change identifier
 fn restarted(db: &Path) -> String {
+    // first the files as a bare backend finds them (a release build's start-up does not re-index)
+    let bare = match crate::bkp::backend_level_check(db, &["target", "formerly_target", "created", "reader2"]) {
+        Ok(s) => s,
+        Err(e) => return format!("RESTART-FAILED backend: {e}"),
+    };
     let idm: Idm = match open(db) {
         Ok(i) => i,
         Err(e) => return format!("RESTART-FAILED {e}"),
     };
     let mut o = observe(&idm, false);
+    o.push('\n');
+    o.push_str(&bare);
     let bad: Vec<String> = idm.read(|r| qs_read_verify(&mut r.qs_read).into_iter().filter_map(|x| x.err()).map(|e| format!("{e:?}")).collect());
     o.push_str(&format!("\nverify:{}", if bad.is_empty() { "clean".to_string() } else { format!("{bad:?}").chars().take(300).collect() }));
     // greatest identifier stamped anywhere
@@ -154,18 +161,23 @@ pub fn run(args: &[String]) -> ! {
         Ok(a) => a,
         Err(e) => kv_engine::ctx::machinery_exit(&format!("C05 references: {e}")),
     };
+    if std::env::var("KV_DEBUG").is_ok() {
+        for (k, a) in afters.iter().enumerate() {
+            eprintln!("reference after [{}]: {}", TXNS[k], a.lines().filter(|l| l.starts_with("verify:") || l.starts_with("name_lookup:") || l.starts_with("next_cid:")).collect::<Vec<_>>().join(" | "));
+        }
+    }
     for (k, a) in afters.iter().enumerate() {
         if a.starts_with("RESTART-FAILED") || strip_entries(a) == strip_entries(&before) && a == &before {
             ctx.machinery_error(format!("{}: reference after-state unusable: {}", TXNS[k], a.chars().take(200).collect::<String>()));
         }
         // a restart after the completed transaction is the last case of the enumeration
-        if !a.starts_with("RESTART-FAILED") && (!a.contains("verify:clean") || !a.contains("next_cid:greater")) {
-            let what: Vec<&str> = a.lines().filter(|l| (l.starts_with("verify:") && *l != "verify:clean") || (l.starts_with("next_cid:") && *l != "next_cid:greater")).collect();
+        if !a.starts_with("RESTART-FAILED") && (!a.contains("\nverify:clean") || !a.contains("next_cid:greater") || !a.contains("backend_verify:clean")) {
+            let what: Vec<&str> = a.lines().filter(|l| (l.starts_with("verify:") && *l != "verify:clean") || (l.starts_with("backend_verify:") && *l != "backend_verify:clean") || (l.starts_with("next_cid:") && *l != "next_cid:greater")).collect();
             ctx.violation(&format!("restart_not_clean:{}", TXNS[k]), &format!("transaction [{}] completed, the process ended without a clean shutdown, and the restarted server reports {what:?}", TXNS[k]), json!({"txn": k, "crash_at": 0}));
         }
     }
-    if !before.contains("verify:clean") || !before.contains("next_cid:greater") {
-        ctx.machinery_error(format!("the restart of an untouched database is not clean: {}", before.lines().filter(|l| l.starts_with("verify:") || l.starts_with("next_cid:")).collect::<Vec<_>>().join(" ")));
+    if !before.contains("\nverify:clean") || !before.contains("backend_verify:clean") || !before.contains("next_cid:greater") {
+        ctx.machinery_error(format!("the restart of an untouched database is not clean: {}", before.lines().filter(|l| l.starts_with("verify:") || l.starts_with("backend_verify:") || l.starts_with("next_cid:")).collect::<Vec<_>>().join(" ")));
     }
     // items: (transaction, block of crash indices); blocks keep the workers evenly loaded
     const BLOCK: u64 = 8;
